@@ -40,7 +40,8 @@ class Prop(PropBase):
         # the README-style use without a size declaration: correspondence only
         for i in range(200 if tier == "quick" else 2000):
             cs.append(Case(sg.frames(rng, rng.choice([1, 2, 3]), declare=False), tag="frames-undeclared", oracle=False))
-        for line, cf in sg.large_canvas_edits(rng, CFGS):
+            cs.append(Case(sg.frames(rng, rng.choice([1, 2, 3]), mismatch=True), tag="frames-size-mismatch", oracle=False))
+        for line, cf in sg.large_canvas_edits(rng, CFGS, tier):
             cs.append(Case(line, sweep="large-canvas-edits", cfgs=cf))
         for line, cf in sg.glyph_byte_edits(CFGS_NOIMM if "CFGS_NOIMM" in globals() else CFGS):
             cs.append(Case(line, sweep="glyph-byte-edits", cfgs=cf))
